@@ -3,6 +3,7 @@ import ast
 import inspect
 import math
 import textwrap
+import re
 import time
 
 import numpy as np
@@ -127,9 +128,38 @@ class SB(SensorP):
     sid = 1
 
 
+ROW_INV_DROPPED = set()      # (Houdini) candidate row invariants that turned out not to be preserved
+
+
 class Hooks(C10.Hooks):
+    def head(self, which, L):
+        if which == "init":
+            # candidate loop invariants for loop-carried row variables: a local that holds row `index` of a table on loop
+            # entry (e.g. `pva_old = trajectory_nominal.iloc[0]` hoisted out of the loop) is conjectured to hold row `index`
+            # at every loop head; the conjecture is assumed at the havoc and must be re-established by the body
+            self.init_rows = {k: v for k, v in L.items() if isinstance(v, Row) and isinstance(k, str)}
+        r_ = self._head11(which, L)
+        if which == "preserved" and getattr(self, "row_inv", None):
+            w, c = self.w, self.w.c
+            idx1, _ = self._state(L)
+            for k, table in self.row_inv.items():
+                v = L.get(k)
+                okv = isinstance(v, Row) and v.table == table
+                c.prove("loop.preserved.row_invariant[%s]" % k, z3.And(z3.BoolVal(bool(okv)), v.idx == idx1 if okv else z3.BoolVal(False)),
+                        "`%s` is row `index` of the %s table again at the next loop head" % (k, table), concretize=w.concretize)
+        return r_
+
     def havoc(self, L):
         d = super().havoc(L)
+        self.row_inv = {}
+        idx_h, _ = self.pre[0], None
+        for k, v in getattr(self, "init_rows", {}).items():
+            if k in ROW_INV_DROPPED or k not in self.roles["stored"]:
+                continue
+            r0, _m = self.w.c.check(v.idx != 0)
+            if r0 == z3.unsat:                      # held row 0 == row `index` on entry
+                d[k] = Row(v.table, self.pre[0])
+                self.row_inv[k] = v.table
         self.x0, self.P0 = Tok.fresh("x"), Tok.fresh("P")
         ct = self.roles["correct_targets"]            # names unpacked from kalman.correct: (state, covariance, innovation)
         self.xname, self.Pname = (ct[0], ct[1]) if len(ct) >= 2 else (None, None)
@@ -139,7 +169,7 @@ class Hooks(C10.Hooks):
         self.w.log = []
         return d
 
-    def head(self, which, L):
+    def _head11(self, which, L):
         if which != "preserved":
             return super().head(which, L)
         w, c = self.w, self.w.c
@@ -288,17 +318,39 @@ def scenario(py, code, mode, with_inc):
 
 
 def _recursion(ctx, py):
+    ROW_INV_DROPPED.clear()
+    for attempt in range(3):
+        agg, n_paths, statuses, errors = _recursion_pass(ctx, py)
+        refuted = {re.sub(r"^loop\.preserved\.row_invariant\[(.*)\]$", r"\1", n_) for n_, v_ in agg.items()
+                   if n_.startswith("loop.preserved.row_invariant[") and v_[1] != "proved"}
+        if not refuted:
+            break
+        ROW_INV_DROPPED.update(refuted)          # the conjecture was wrong: forget it and start over without it
+    t0 = time.time()
+    for e_ in errors:
+        ctx.add(e_)
+    ctx.paths += n_paths
+    ctx.ob("C11.recursion.guard.paths", "guard", (n_paths > 0 and "iteration" in statuses) if n_paths > 0 else None, "path-enumeration", 0.0,
+           "%d paths of the cut loop with token payload; reached %s" % (n_paths, sorted(set(statuses))))
+    for name in sorted(agg):
+        rank, st, detail, cex, count = agg[name]
+        ctx.add(Ob("C11.loop." + name, "c", st, "z3+token-trace", (time.time() - t0) / max(1, len(agg)), "%s [%d path instances]" % (detail, count), cex=cex,
+                   native=_native_batch_quick(py) if st == "failed" else None))
+
+
+def _recursion_pass(ctx, py):
     code, info = C10.build(py)
     t0 = time.time()
     agg = {}
     n_paths = 0
     statuses = []
+    errors = []
     for mode in ("none", "one", "two"):
         for with_inc in (False, True):
             try:
                 paths = explore_z(lambda: scenario(py, code, mode, with_inc), max_paths=600)
             except (Concretization, TypeError, AttributeError) as exc:
-                ctx.add(Ob("C11.recursion.engine.%s" % mode, "guard", "error", "python", 0.0, "construct outside the executable subset: %r" % (exc,)))
+                errors.append(Ob("C11.recursion.engine.%s" % mode, "guard", "error", "python", 0.0, "construct outside the executable subset: %r" % (exc,)))
                 continue
             for pa, res in paths:
                 n_paths += 1
@@ -313,12 +365,7 @@ def _recursion(ctx, py):
                         agg[name] = (rank, st, detail, cex, 1 if cur is None else cur[4] + 1)
                     else:
                         agg[name] = cur[:4] + (cur[4] + 1,)
-    ctx.paths += n_paths
-    ctx.ob("C11.recursion.guard.paths", "guard", n_paths > 0 and "iteration" in statuses, "path-enumeration", 0.0, "%d paths of the cut loop with token payload; reached %s" % (n_paths, sorted(set(statuses))))
-    for name in sorted(agg):
-        rank, st, detail, cex, count = agg[name]
-        ctx.add(Ob("C11.loop." + name, "c", st, "z3+token-trace", (time.time() - t0) / max(1, len(agg)), "%s [%d path instances]" % (detail, count), cex=cex,
-                   native=_native_batch_quick(py) if st == "failed" else None))
+    return agg, n_paths, statuses, errors
 
 
 # =============================================================================================
